@@ -300,11 +300,36 @@ def callCopy (F : RespFRD α) (squeeze : Sq) (returnMagphase : Option Bool) : Re
            returnMagphase := returnMagphase.getD F.returnMagphase }
 
 /-- `F.eval(omega, squeeze)` / `F(x, squeeze)` of a non-interpolating RespFRD whose requested
-frequencies are the stored ones at the increasing positions `ks` (`scalar`: `omega` is a scalar). -/
+frequencies are the stored ones at the positions `ks`, one position per requested point, in the
+order requested (any order, repeats allowed; `scalar`: `omega` is a scalar). -/
 def eval (F : RespFRD α) (ks : List Nat) (scalar : Bool) (squeeze : Sq) (cfg : Cfg) :
     Except Err (NDArr α) := do
   let out ← F.frdata.selectLast ks
   processFreq F.issiso (if scalar then 0 else 1) out squeeze cfg.sqFreq
+
+/-- the look-up step of `FrequencyResponseData.eval`: the index of each requested frequency in
+the stored frequency list (`np.flatnonzero(self.omega == w)[0]`, i.e. the first match: the stored
+list of a user-built FRD is neither sorted nor duplicate-free), one index per requested point in
+the order requested; a requested frequency that is not stored raises ("not all frequencies are
+in frequency list of FRD system").  `ω` is the type of frequency values. -/
+def lookupFreqs {ω : Type} [DecidableEq ω] (stored req : List ω) : Except Err (List Nat) :=
+  req.mapM fun w => match stored.idxOf? w with
+    | some i => pure i
+    | Option.none => throw Err.missing
+
+/-- `F.eval(omega, squeeze)` / `F(x, squeeze)` / `evalfr(F, x, squeeze)` of a non-interpolating
+FRD with the stored frequency list `stored`, at the evaluation points `omega` (an array of
+frequency *values*: 0-d for a scalar point).  `offAxis`: some point is not a real frequency
+(`F(x)` with a non-zero real part, `F.eval(w)` with a positive imaginary part).  Branch order of
+the code: "input list must be 1D", the real-frequency test, the look-up, the selection
+`frdata[:, :, indices]`, `_process_frequency_response`. -/
+def evalAt {ω : Type} [DecidableEq ω] (F : RespFRD α) (stored : List ω) (omega : NDArr ω)
+    (offAxis : Bool) (squeeze : Sq) (cfg : Cfg) : Except Err (NDArr α) := do
+  if omega.ndim > 1 then throw Err.badArg
+  if offAxis then throw Err.badArg
+  let ks ← lookupFreqs stored omega.data
+  let out ← F.frdata.selectLast ks
+  processFreq F.issiso omega.ndim out squeeze cfg.sqFreq
 
 end RespFRD
 
